@@ -1,0 +1,85 @@
+//go:build verif
+
+package vxfw
+
+import "git.sr.ht/~rockorager/vaxis"
+
+// Hooks for the verification harness in /verif (property C15: event routing,
+// focus and hover).  Add-only, guarded by the build tag "verif": re-exports of
+// the unexported handlers, state injection and read-only snapshots; no logic.
+
+// VerifC15 pairs an App with a mouseHandler (App.Run keeps the latter in a local
+// variable).
+type VerifC15 struct {
+	App *App
+	mh  mouseHandler
+}
+
+// VerifC15Hit is a copy of one hitResult
+type VerifC15Hit struct {
+	Col, Row uint16
+	W        Widget
+}
+
+// VerifC15State is a read-only snapshot of the routing state
+type VerifC15State struct {
+	Redraw, Refresh, ShouldQuit, ConsumeEvent, Debug bool
+	Root, Focused                                    Widget
+	Path                                             []Widget
+	Hits                                             []VerifC15Hit
+	HasMouse                                         bool
+}
+
+func VerifC15New(opts vaxis.Options) (*VerifC15, error) {
+	app, err := NewApp(opts)
+	if err != nil {
+		return nil, err
+	}
+	return &VerifC15{App: app}, nil
+}
+
+func (v *VerifC15) Close() { v.App.vx.Close() }
+
+// SetFocusState injects a focus handler state (App.Run starts with root, root, [root])
+func (v *VerifC15) SetFocusState(root Widget, focused Widget, path []Widget) {
+	v.App.fh = focusHandler{root: root, focused: focused, path: path}
+}
+
+// SetLastFrame is the assignment mh.lastFrame = s of App.Run
+func (v *VerifC15) SetLastFrame(s Surface) { v.mh.lastFrame = s }
+
+// ClearMouse is the assignment mh.mouse = nil of App.Run's FocusOut case
+func (v *VerifC15) ClearMouse() { v.mh.mouse = nil }
+
+func (v *VerifC15) FocusHandleEvent(ev vaxis.Event) error { return v.App.fh.handleEvent(v.App, ev) }
+func (v *VerifC15) UpdatePath(s Surface)                  { v.App.fh.updatePath(v.App, s) }
+func (v *VerifC15) FocusWidget(w Widget) error            { return v.App.fh.focusWidget(v.App, w) }
+func (v *VerifC15) HandleCommand(cmd Command)             { v.App.handleCommand(cmd) }
+func (v *VerifC15) MouseHandleEvent(ev vaxis.Mouse) error { return v.mh.handleEvent(v.App, ev) }
+func (v *VerifC15) MouseUpdate(s Surface) error           { return v.mh.update(v.App, s) }
+func (v *VerifC15) MouseExit() error                      { return v.mh.mouseExit(v.App) }
+
+// Render is Surface.render on the root window with the focused widget, as in App.Run
+func (v *VerifC15) Render(s Surface) { s.render(v.App.vx.Window(), v.App.fh.focused) }
+
+func (v *VerifC15) Snapshot() VerifC15State {
+	a := v.App
+	st := VerifC15State{
+		Redraw: a.redraw, Refresh: a.refresh, ShouldQuit: a.shouldQuit, ConsumeEvent: a.consumeEvent, Debug: a.debug,
+		Root: a.fh.root, Focused: a.fh.focused, HasMouse: v.mh.mouse != nil,
+	}
+	st.Path = append(st.Path, a.fh.path...)
+	for _, h := range v.mh.lastHits {
+		st.Hits = append(st.Hits, VerifC15Hit{Col: h.col, Row: h.row, W: h.w})
+	}
+	return st
+}
+
+// VerifC15HitTest re-exports hitTest (starting from an empty hit list)
+func VerifC15HitTest(s Surface, col uint16, row uint16) []VerifC15Hit {
+	var out []VerifC15Hit
+	for _, h := range hitTest(s, []hitResult{}, col, row) {
+		out = append(out, VerifC15Hit{Col: h.col, Row: h.row, W: h.w})
+	}
+	return out
+}
